@@ -92,7 +92,7 @@ fn make_text(len: usize, sel: &[u8]) -> String {
             14 if rem >= 3 => '€',
             13 if rem >= 2 => 'é',
             12 => '\0',
-            11 => ' ',
+            11 => [' ', ' ', '\t', '\n'][(k >> 4) as usize % 4],
             10 => '\u{7f}',
             _ => (b'a' + k % 26) as char,
         };
@@ -269,7 +269,27 @@ pub fn sli_list(inv_fields: bool) -> BS<Vec<(u16, u16, u8)>> {
     let f13b = f13.clone();
     let f6 = prop_oneof![3 => 0u8..=0x3f, 1 => select(vec![0u8, 1, 0x3f, 0x20])].boxed();
     let _ = inv_fields;
-    prop_oneof![8 => 0usize..=6, 1 => 20usize..=40].prop_flat_map(move |n| vec((f13.clone(), f13b.clone(), f6.clone()), n)).boxed()
+    // entries are independent of each other on the wire; the list is generated with RELATIONS between
+    // neighbours (exact repeat, a run that continues the previous one, same start / same picture) so that
+    // anything that merges, de-duplicates or reorders entries is seen
+    let rel = prop_oneof![6 => Just(0u8), 1 => Just(1u8), 1 => Just(2u8), 1 => Just(3u8), 1 => Just(4u8)];
+    prop_oneof![8 => 0usize..=6, 1 => 20usize..=40]
+        .prop_flat_map(move |n| vec((f13.clone(), f13b.clone(), f6.clone(), rel.clone()), n))
+        .prop_map(|raw| {
+            let mut out: Vec<(u16, u16, u8)> = Vec::with_capacity(raw.len());
+            for (a, n, p, rel) in raw {
+                let e = match (rel, out.last().copied()) {
+                    (1, Some(prev)) => prev,                                                   // exact repeat
+                    (2, Some((pa, pn, pp))) => ((pa.wrapping_add(pn)) & 0x1fff, n, pp),        // continues the previous run
+                    (3, Some((pa, _, pp))) => (pa, n, pp),                                     // same start, same picture
+                    (4, Some((pa, pn, _))) => ((pa.wrapping_add(pn)) & 0x1fff, n, p),          // adjacent run of another picture
+                    _ => (a, n, p),
+                };
+                out.push(e);
+            }
+            out
+        })
+        .boxed()
 }
 
 pub fn fci_spec(inv: bool) -> BS<FciSpec> {
@@ -352,8 +372,8 @@ pub fn small_leaf(inv: bool, custom: bool) -> BS<PacketSpec> {
 }
 
 pub fn how() -> BS<crate::drive::How> {
-    (any::<bool>(), any::<bool>(), prop_oneof![4 => Just(false), 1 => Just(true)], prop_oneof![2 => Just(false), 1 => Just(true)])
-        .prop_map(|(fb_owned, wrap, single_compound, owned)| crate::drive::How { fb_owned, wrap, single_compound, owned })
+    (any::<bool>(), any::<bool>(), prop_oneof![4 => Just(false), 1 => Just(true)], prop_oneof![2 => Just(false), 1 => Just(true)], prop_oneof![2 => Just(false), 1 => Just(true)])
+        .prop_map(|(fb_owned, wrap, single_compound, owned, probe)| crate::drive::How { fb_owned, wrap, single_compound, owned, probe })
         .boxed()
 }
 
